@@ -113,6 +113,26 @@ class Check:
     def analysis_error(self, msg):
         self.errors.append(msg)
 
+    def apply_floors(self):
+        """Fail-closed policy: a rule that lost its instances, or an obligation the analysis cannot decide, is an analysis error -- never a pass."""
+        if getattr(self, "_floors_applied", False):
+            return
+        self._floors_applied = True
+        for r in self.rules:
+            c = r.counts()
+            if c["discharged"] + c["refuted"] < r.floor:
+                self.errors.append(
+                    f"rule {r.id}: {c['discharged']} discharged + {c['refuted']} refuted obligations, below the floor {r.floor} "
+                    f"({c['inconclusive']} inconclusive) -- anchor vanished or idiom not recognised"
+                )
+            inc = [o for o in r.obls if o.status == "inconclusive"]
+            if inc and not any(o.status == "refuted" for o in r.obls):
+                o = inc[0]
+                self.errors.append(
+                    f"rule {r.id}: {len(inc)} obligation(s) could not be decided (every obligation is decided on the pinned tree), first: "
+                    f"{o.construct} -- {o.detail[:200]}"
+                )
+
     # ------------------------------------------------------------------ finish
     def finish(self, selftest=None) -> int:
         os.makedirs(REPLAY_DIR, exist_ok=True)
@@ -126,14 +146,7 @@ class Check:
                 matched.append((o, k))
             else:
                 new.append(o)
-        # floors: a rule that lost its instances is an analysis error, never a pass
-        for r in self.rules:
-            c = r.counts()
-            if c["discharged"] + c["refuted"] < r.floor:
-                self.errors.append(
-                    f"rule {r.id}: {c['discharged']} discharged + {c['refuted']} refuted obligations, below the floor {r.floor} "
-                    f"({c['inconclusive']} inconclusive) -- anchor vanished or idiom not recognised"
-                )
+        self.apply_floors()
         for o, k in matched:
             print(f"KNOWN-FINDING: property={self.pid} {k.get('what', o.construct)} [{o.rule} @ {o.construct}]")
         replay_paths = []
